@@ -186,6 +186,9 @@ def run(rep, ctx):
         r06_2(rep, M, "R06.2")
     with rep.guard("R06.3"):
         r06_3(rep, M, "R06.3")
+        from .. import symrules as _SRg
+        _SRg.ground_state_consistency_raises(rep, M, "R06.3")
+        _SRg.lazy_init_polarity(rep, M, "R06.3", ["get_wyckoff_letters_original"])
     with rep.guard("R06.4"):
         facts = c05.first_wins_guard(M)
         for k, v in sorted(facts.items()):
